@@ -207,6 +207,20 @@ def gen_doc(rng, min_widgets=2, max_widgets=5, want_dynamic=True):
                     mark(w, "rowMinimumHeight", k // cols)
                     if len(taken["rowMinimumHeight"]) > n0:
                         taken["rowMinimumHeight"].add((k % cols) + 1000)
+    # a palette with roles bound on the palette itself (they apply to every colour group that does not bind the role) next
+    # to explicit groups binding other roles; each default colour occurs nowhere else in the document
+    if doc["widgets"] and rng.chance(0.25):
+        w = rng.choice(doc["widgets"])
+        roles = rng.sample(["window", "windowText", "base", "text", "button", "buttonText", "highlight", "toolTipBase", "brightText", "link"], rng.randint(2, 5))
+        ndef = rng.randint(1, min(2, len(roles) - 1))
+        extra = []
+        for r in roles[:ndef]:
+            extra.append(["palette." + r, '"#%02x%02x%02x"' % (rng.randint(17, 250), rng.randint(17, 250), rng.randint(17, 250))])
+        for g in rng.sample(["active", "inactive", "disabled"], rng.randint(1, 3)):
+            for r in rng.sample(roles[ndef:], rng.randint(1, len(roles) - ndef)):
+                extra.append(["palette.%s.%s" % (g, r), rng.choice(['"#0000ff"', '"#00ff00"', '"#ff0000"', '"#ffffff"'])])
+        rng.shuffle(extra)
+        w["props"] += extra
     if want_dynamic and ndyn == 0:
         # force one dynamic binding on the first widget that can take it
         for w in doc["widgets"]:
@@ -228,6 +242,17 @@ def gen_doc(rng, min_widgets=2, max_widgets=5, want_dynamic=True):
 def markers(doc):
     """numbers that occur exactly once in the document, as the value of a constant attached property its layout consumes"""
     return sorted(int(p[1]) for w in doc["widgets"] for p in w["props"] if p[0].startswith("QLayout.") and p[1].isdigit() and int(p[1]) > 100)
+
+
+def palette_defaults(doc):
+    """[(role, (r, g, b))] of roles bound on a palette itself"""
+    out = []
+    for w in doc["widgets"]:
+        for name, expr in w["props"]:
+            parts = name.split(".")
+            if parts[0] == "palette" and len(parts) == 2 and expr.startswith('"#') and len(expr) == 9:
+                out.append((parts[1], (int(expr[2:4], 16), int(expr[4:6], 16), int(expr[6:8], 16))))
+    return out
 
 
 def render(doc):
@@ -288,7 +313,7 @@ def edit(rng, doc):
             return d, op
         if op == "const":
             cands = [(wi, bi) for wi, w in enumerate(d["widgets"]) for bi, p in enumerate(w["props"])
-                     if p[1].startswith('"') and p[1].endswith('"') and p[1].count('"') == 2]
+                     if p[1].startswith('"') and p[1].endswith('"') and p[1].count('"') == 2 and not p[0].startswith("palette")]
             if cands:
                 wi, bi = rng.choice(cands)
                 d["widgets"][wi]["props"][bi][1] = _q(_s(rng) + str(rng.randint(0, 99)))
